@@ -1289,7 +1289,11 @@ func (s *scen) drain() {
 			for h := s.tail; h <= st.NetworkHead; h++ {
 				if !s.isOK(h) && !s.lost[h] {
 					sig := "C04/drain/height-never-sampled"
-					s.rep.Violate(sig, fmt.Sprintf("everything succeeded from some point on, the DASer is idle (stats %+v) but height %d was never sampled successfully", st, h), s.replay())
+					what := fmt.Sprintf("everything succeeded from some point on, the DASer is idle (stats %+v) but height %d was never sampled successfully", st, h)
+					s.rep.Violate(sig, what, s.replay())
+					// the same observation breaks C13's progress clause ("as long as blocks can be sampled the
+					// DASer eventually samples every known height") and its "done exactly when ..." clause
+					s.rep.Violate("C13/progress/known-height-never-sampled", what, s.replay())
 					return
 				}
 			}
